@@ -16,6 +16,8 @@ import Wz.Spec.Wasm
 import Wz.Proofs.C01_straight
 import Wz.Gen.NopElim
 import Wz.Gen.SideEffects
+import Wz.Gen.InstrGroups
+import Wz.Proofs.C01_groups
 
 namespace Wz.C01
 open Wz.Spec Wz.Spec.Wasm Wz.Model.InterpStraight
@@ -143,6 +145,93 @@ theorem dce_keeps_observable_instructions :
 
 /-- non-vacuity: the table does mark pure instructions as eliminable -/
 example : classOf "Iadd" = some "sideEffectNone" := by decide
+
+/-! ### instruction groups: merging a definition into its consumer never crosses a store or a call
+
+The back ends merge a single-use definition (a load feeding a compare, a compare feeding a branch) into the
+instruction that uses it when both carry the same *instruction group id*; that executes the definition at
+the consumer's position.  `Wz.Model.InstrGroups` models the numbering of `passDeadCodeEliminationOpt`
+(assign, then bump on a strict side effect) and a small machine with loads, pure operations, traps, stores
+and calls.  Finding F39 (a load executed after a store it preceded) was a violation of the regenerated
+obligation `every_late_instruction_has_a_group` below, not of the rule itself. -/
+
+open Wz.Model.InstrGroups in
+/-- **Same group ⇒ nothing with a strict side effect in between.**  For every instruction list numbered from
+any start, if the instruction after the prefix `pre` and the one `mid.length + 1` positions later carry the
+same group id, then neither the first nor anything between them is a store or a call. -/
+theorem same_group_no_strict_between (g : Nat) (pre : List Ins) (a : Ins) (mid : List Ins) (b : Ins) (post : List Ins)
+    (h : (gidsFrom g (pre ++ a :: (mid ++ b :: post)))[pre.length]? =
+         (gidsFrom g (pre ++ a :: (mid ++ b :: post)))[pre.length + 1 + mid.length]?) :
+    a.eff ≠ .strict ∧ ∀ i ∈ mid, i.eff ≠ .strict := by
+  have h1 := gid_after_prefix g pre a (mid ++ b :: post)
+  have h2 := gid_after_prefix g (pre ++ a :: mid) b post
+  have e : pre ++ a :: (mid ++ b :: post) = (pre ++ a :: mid) ++ b :: post := by simp
+  rw [e] at h h1
+  have hl : (pre ++ a :: mid).length = pre.length + 1 + mid.length := by simp; omega
+  rw [hl] at h2
+  rw [h1, h2, countStrict_append] at h
+  have hz : countStrict (a :: mid) = 0 := by
+    have := Option.some.inj h
+    omega
+  have hall := countStrict_zero hz
+  exact ⟨hall a (List.mem_cons_self ..), fun i hi => hall i (List.mem_cons_of_mem _ hi)⟩
+
+open Wz.Model.InstrGroups in
+/-- **Merging within a group is sound.**  A load whose group equals the group of its consumer (the head of
+`rest`) can be executed at the consumer's position: for every program around it, every start state and every
+memory, the two programs end in the same state (or both trap), provided the instructions in between do not
+touch the loaded register (SSA: one definition, the consumer is the only use). -/
+theorem fusion_within_group_sound (g d addr : Nat) (pre mid : List Ins) (c : Ins) (post : List Ins) (s : State)
+    (hg : (gidsFrom g (pre ++ Ins.load d addr :: (mid ++ c :: post)))[pre.length]? =
+          (gidsFrom g (pre ++ Ins.load d addr :: (mid ++ c :: post)))[pre.length + 1 + mid.length]?)
+    (hi : ∀ i ∈ mid, Indep d i) :
+    exec (pre ++ Ins.load d addr :: (mid ++ c :: post)) s = exec (pre ++ (mid ++ Ins.load d addr :: c :: post)) s := by
+  have hns := (same_group_no_strict_between g pre (Ins.load d addr) mid c post hg).2
+  rw [exec_append, exec_append]
+  cases exec pre s with
+  | none => rfl
+  | some s1 =>
+    simp only [Option.bind_some]
+    exact sink_load d addr mid (c :: post) s1 (fun i hm => ⟨hns i hm, hi i hm⟩)
+
+open Wz.Model.InstrGroups in
+/-- The rule is needed: across a store (another group) sinking the load changes the result.
+`r0 := mem[7]; mem[7] := r1; r2 := r0` with `r1 = 5`, `mem[7] = 3`. -/
+theorem fusion_across_store_unsound_witness :
+    let s0 : State := { regs := fun r => if r = 1 then 5 else 0, mem := fun a => if a = 7 then 3 else 0 }
+    let use : Ins := .pure 2 (fun r => r 0)
+    gidsFrom 0 [Ins.load 0 7, Ins.store 7 1, use] = [0, 0, 1] ∧
+    (exec [Ins.load 0 7, Ins.store 7 1, use] s0).map (·.regs 2) = some 3 ∧
+    (exec [Ins.store 7 1, Ins.load 0 7, use] s0).map (·.regs 2) = some 5 := by decide
+
+/-- non-vacuity of `fusion_within_group_sound`: a load, a trap check on another register and the consumer are
+one group -/
+example : Wz.Model.InstrGroups.gidsFrom 4 [.load 0 7, .trapIf 3, .pure 2 (fun r => r 0)] = [4, 4, 4] := by decide
+
+/-- Regenerated shape of the numbering loop: the id is assigned before the instruction is looked at, and the
+counter is bumped in exactly one place, the `sideEffectStrict` case - what `gidsFrom`/`bump` model. -/
+theorem numbering_matches_model :
+    Wz.Gen.InstrGroups.assignFirst = true ∧ Wz.Gen.InstrGroups.bumpCases = ["sideEffectStrict"] ∧
+    Wz.Gen.InstrGroups.bumpStatements = 1 := by decide
+
+/-- Regenerated: both matchers of the back end refuse a definition from another group. -/
+theorem matchers_check_group :
+    Wz.Gen.InstrGroups.matchers = [("MatchInstr", true), ("MatchInstrOneOf", true)] := by decide
+
+/-- Regenerated: every instruction a pass allocates AFTER the numbering inherits a group from an existing
+instruction (F39: `splitCriticalEdge` left its replacement branch in group 0), and nothing but the two
+construction-time helpers allocates instructions outside the passes. -/
+theorem every_late_instruction_has_a_group :
+    Wz.Gen.InstrGroups.passAllocations.all (fun a => a.2.2.2) = true ∧
+    Wz.Gen.InstrGroups.builderAllocations.map (fun a => a.2.1) = ["InsertZeroValue", "InsertUndefined"] := by decide
+
+/-- Regenerated side-effect table: what the machine calls `load` is class none, stores and calls are strict
+(so they start a new group), and the trapping instructions are not strict. -/
+theorem group_classes_match_model :
+    classOf "Load" = some "sideEffectNone" ∧ classOf "Uload8" = some "sideEffectNone" ∧
+    classOf "Store" = some "sideEffectStrict" ∧ classOf "Istore8" = some "sideEffectStrict" ∧
+    classOf "Call" = some "sideEffectStrict" ∧ classOf "CallIndirect" = some "sideEffectStrict" ∧
+    classOf "AtomicRmw" = some "sideEffectStrict" ∧ classOf "ExitIfTrueWithCode" = some "sideEffectStrict" := by decide
 
 /-! ### the reference semantics -/
 
